@@ -1176,6 +1176,22 @@ func c14GenKE(rng *rand.Rand, shape int) *c14KEMsg {
 	for _, it := range items {
 		kinds = append(kinds, it.kind)
 	}
+	if shape == 0 && rng.IntN(4) == 0 && len(m.stream) >= 6 && m.stream[0] == 0x80 && m.stream[1] == 0x01 && m.stream[3] == 2 {
+		// a Next Protocol Negotiation record may list several protocol IDs (RFC 8915, 4.1.2); the
+		// records behind it are framed by its announced length like behind any other record
+		extra := 1 + rng.IntN(3)
+		body := append([]byte{}, m.stream[4:6]...)
+		for i := 0; i < extra; i++ {
+			body = append(body, byte(0x80|rng.IntN(0x80)), byte(rng.IntN(256)))
+		}
+		if rng.IntN(2) == 0 { // NTPv4 need not come first
+			copy(body[0:2], body[len(body)-2:])
+			body[len(body)-2], body[len(body)-1] = 0, 0
+		}
+		rec := append([]byte{0x80, 0x01, 0, byte(len(body))}, body...)
+		m.stream = append(rec, m.stream[6:]...)
+		kinds[0] = "nextproto-list"
+	}
 	if shape == 0 && rng.IntN(3) == 0 {
 		var out []byte
 		var ks []string
